@@ -90,6 +90,10 @@ FIXED = [
      "IA-STL: Xor nodes did not collect in_vars/out_vars, so a predicate over an operand containing xor was treated as insensitive"),
     ('F23', ['C01', 'C17'], "fix: an untimed 'unless' could not be parsed",
      "'phi unless psi' (grammar + README sugar for always(phi) or (phi until psi)) raised AttributeError in parse(): the optional interval was visited before testing that it is present"),
+    ('F24', ['C08', 'C17'], 'fix: pastify() raised TypeError when the sampling period is a float',
+     "pastify() with set_sampling_period(0.5, 's'): TypeError from Fraction(float, int) in the sample duration (a regression of the F07e/F09e repairs, found when float periods joined the notations)"),
+    ('F25', ['C09'], 'fix: dense-time online monitor returned nothing when a constant is a named sub-specification',
+     "dense online: a named constant ('k = 3;' with 'out = x > k') returned [] for ever - the constant's one-time delivery was used up by the assertion k itself (side effect of the F17 repair)"),
 ]
 
 OPEN = [
